@@ -494,16 +494,18 @@ func (t *WeightedMerkleTrie) commit(node Node, batcher storage.Batcher, collapse
 		if err != nil {
 			return nil, err
 		}
+		// report the saved node also when it is collapsed below: otherwise a rollback
+		// leaves it in storage and a pending delete of the same hash is not cancelled
+		createdChan <- n.Hash()
+		if !bytes.Equal(prevHash, n.Hash()) {
+			deleteChan <- prevHash
+		}
 		if level == collapseLevel {
 			n.Children = [16]Node{}
 			return &hashNode{
 				hash:   n.Hash(),
 				weight: n.Weight(),
 			}, nil
-		}
-		createdChan <- n.Hash()
-		if !bytes.Equal(prevHash, n.Hash()) {
-			deleteChan <- prevHash
 		}
 		return n, nil
 	case *shortNode:
